@@ -3,7 +3,7 @@ from fractions import Fraction
 
 CFG = dict(
     bins=["c12"],
-    imports=["Run.RunC12"],
+    imports=["Run.RunC12", "Run.RunC12Q"],
     exhaustive=True,
     rule="series: exhaustive over the alphabet {-1, 2, 3, null} for every length 0..=3 (thorough 0..=4) with every "
          "parameter combination, lengths 4..=5 (thorough 5..=6) every series with <= 2 valid elements (the only valid "
